@@ -425,6 +425,17 @@ class World:
             names = [getattr(x, "name", "") for x in (c if isinstance(c, tuple) else (c,))]
             return v.t.sort() in (Nd, Ad) and any(n in ("int", "object") for n in names)
         vm.spec.opaque_hooks.setdefault("sterm_isinstance", sterm_isinstance)
+        # a LIVE user instance may be falsy (a Symbol class can define __len__ / __bool__): its truth value is arbitrary, but
+        # the same whenever it is asked within one path
+        truths = {}
+
+        def obj_truth(it, o):
+            if getattr(o, "tag", None) != "instance":
+                return None
+            if o.oid not in truths:
+                truths[o.oid] = SBool(it.ctx.fresh_bool("instance_is_truthy"))
+            return truths[o.oid]
+        vm.spec.opaque_hooks.setdefault("obj_truth", obj_truth)
         SGc = vm.loader.cls(SG, "SymbolGraph")
         self.graph_obj = vm.alloc(SGc, {}, tag="symbol-graph")
         g = self.graph_obj
